@@ -97,16 +97,31 @@ class IEnviron(dict):
 class ILock:
     """Stands for server._disconnect_lock (a threading.Lock) under the baton scheduler: the
     acquire is a scheduling point, a thread that wants the lock is NOT ENABLED while another one
-    holds it (the controller never resumes it then), so nothing ever blocks for real."""
+    holds it (the controller never resumes it then), so nothing ever blocks for real.
+    A NON-BLOCKING (or timed) acquire is a scheduling point at which the thread stays enabled:
+    resumed while another thread holds the lock it gets False and goes on without the lock
+    (label ('Other', 2): an access the model does not have); `locked()` is a scheduling point
+    too (label ('Other', 3))."""
 
     def __init__(self, ctl):
         self._ctl = ctl
         self.holder = None
 
+    def _try_acquire(self, t):
+        self._ctl.point(('tryacquire',))
+        if self.holder is not None:
+            self._ctl.log(('Other', 2))
+            return False
+        self.holder = t
+        self._ctl.log(('Acquire',))
+        return True
+
     def acquire(self, blocking=True, timeout=-1):
         t = self._ctl.cur()
         if t is None:                   # setup code on the main thread
             return True
+        if not blocking or (timeout is not None and timeout >= 0):
+            return self._try_acquire(t)
         t.wants = self
         try:
             self._ctl.point(('acquire',))
@@ -120,9 +135,14 @@ class ILock:
 
     def release(self):
         if self._ctl.cur() is not None:
+            if self.holder is None:
+                raise RuntimeError('release unlocked lock')
             self.holder = None
 
     def locked(self):
+        if self._ctl.cur() is not None:
+            self._ctl.point(('locked',))
+            self._ctl.log(('Other', 3))
         return self.holder is not None
 
     def __enter__(self):
